@@ -40,7 +40,12 @@ def gen_case(seed, i):
             ids.add(m["ident"])
         m["scan"] = G.scan_part(r, len(recs))
         members.append(m)
-    return {"recs": recs, "members": members, "if_all_agree": r.random() < 0.4, "perm": r.random() < 0.5}
+    case = {"recs": recs, "members": members, "if_all_agree": r.random() < 0.4, "perm": r.random() < 0.5}
+    if i % 6 == 5:
+        # the file, the lone CsvPath and the CsvPaths in another dialect
+        case["delim"] = r.choice([";", "|", "\t"])
+        case["quote"] = r.choice(["'", '"'])
+    return case
 
 
 def member_text(m, path=""):
@@ -79,12 +84,13 @@ def case_group(case):
     if case["perm"] and len(members) > 1:
         orders.append(list(reversed(range(len(members)))))
     # ---- every member alone ----
-    path = real_run.write_file("grp_alone.csv", recs)
+    delim, quote = case.get("delim", ","), case.get("quote", '"')
+    path = real_run.write_file("grp_alone.csv", recs, delimiter=delim, quotechar=quote)
     alone = []
     for m in members:
         # error messages carry the csvpath's identity ("[1] Line 0: ..."), which legitimately differs
         # between a lone CsvPath and a group member: errors are compared as records, not as printouts
-        out, _ = real_run.run_single(member_text(m, path), "collect", policy=["collect"])
+        out, _ = real_run.run_single(member_text(m, path), "collect", policy=["collect"], delimiter=delim, quotechar=quote)
         if "parse_error" in out:
             res["parse_error"] = out["parse_error"]
             return res
@@ -99,8 +105,8 @@ def case_group(case):
         ms = [members[k] for k in order]
         for method in RG.METHODS:
             realenv.reset_dirs()
-            cp = RG.new_csvpaths(policy=["collect"], csvpath_policy=["collect"])
-            RG.setup_group(cp, "grp", [member_text(m) for m in ms], "food", recs)
+            cp = RG.new_csvpaths(policy=["collect"], csvpath_policy=["collect"], delimiter=delim, quotechar=quote)
+            RG.setup_group(cp, "grp", [member_text(m) for m in ms], "food", recs, delimiter=delim, quotechar=quote)
             caller, mobs, raised = RG.run_group(cp, "grp", "food", method, if_all_agree=case["if_all_agree"])
             if raised:
                 res["oracle"].append({"what": f"{method} raised {raised} although every member runs alone", "order": order})
